@@ -335,7 +335,7 @@ Proof.
 Qed.
 
 (* ================================================================== the request is what the call writes first *)
-From Zvt Require Import Transport Sequence SeqLookup ClientProps ClientLog.
+From Zvt Require Import EnumProps Transport Sequence SeqLookup ClientProps ClientLog.
 
 Local Strategy 1000 [consume retry_next RFUEL LOOPFUEL].
 
@@ -546,4 +546,51 @@ Proof.
   { assert (R : rev [116; 111; 107; 45; 49] = rev (q ++ [x])) by (rewrite E; reflexivity).
     rewrite rev_app_distr in R. cbn in R. injection R as R _. symmetry. exact R. }
   subst x. discriminate.
+Qed.
+
+(* ================================================================== C08, last clause: the summary is what the terminal reported *)
+
+Lemma commit_handler_ok ixa ixs : forall its acc si,
+  run_handler (h_commit ixa ixs) (fun a => ROk a) acc its = ROk si ->
+  si = fold_left (fun a iv => if fst iv =? ixs then Some (snd iv) else a) its acc /\ Forall (fun iv => fst iv <> ixa) its.
+Proof.
+  induction its as [|[i v] r IH]; intros acc si H; cbn [run_handler] in H.
+  - injection H as <-. split; [reflexivity|constructor].
+  - unfold h_commit in H. destruct (i =? ixa) eqn:Ea; [discriminate|]. destruct (i =? ixs) eqn:Es.
+    + destruct (IH _ _ H) as [E F]. split; [cbn [fold_left fst snd]; rewrite Es; exact E|constructor; [cbn; lia|exact F]].
+    + destruct (IH _ _ H) as [E F]. split; [cbn [fold_left fst snd]; rewrite Es; exact E|constructor; [cbn; lia|exact F]].
+Qed.
+
+(* When the terminal's replies to the partial reversal — any number of them, the serialisations of class values, the last one final —
+   are what arrives on the connection, and the call returns a summary at all, then the summary's five fields are those of the LAST
+   status information among these replies, and none of the replies was an abort. *)
+Theorem commit_summary_is_the_last_status_reported cfg st tok amount rn w id xs rest final sm :
+  let cmd := mk_cmd "zvt::packets::PartialReversal" []
+               [(135, VSome (VInt rn)); (73, VSome (VInt (c_currency cfg))); (4, VSome (VInt (c_amount cfg - amount))); (25, VSome (VInt 64)); (6, bmp60 tok)] in
+  let q := seq_of "zvt::sequences::PartialReversal" cmd in
+  let ixa := variant_ix "zvt::sequences::PartialReversalResponse" "PartialReversalAbort" in
+  let ixs := variant_ix "zvt::sequences::PartialReversalResponse" "StatusInformation" in
+  assoc_tok tok (s_txs st) = Some rn -> w_cur w = Some id -> valid_id w id -> settled (get_conn w id) ->
+  q_mode q = Loop final ->
+  k_buf (get_conn w id) = [128; 0; 0] ++ concat (map x_bytes xs) ++ rest ->
+  Forall (reply_ok (q_replies q)) xs -> xs <> [] ->
+  (forall pre x post, xs = pre ++ x :: post -> final (fst (x_item x)) = match post with [] => true | _ => false end) ->
+  (length xs < LOOPFUEL)%nat ->
+  fst (fst (commit_transaction cfg st tok amount w)) = ROk sm ->
+  exists v, fold_left (fun a iv => if fst iv =? ixs then Some (snd iv) else a) (map x_item xs) None = Some v /\
+            summary_of (Some v) = ROk sm /\ Forall (fun iv => fst iv <> ixa) (map x_item xs).
+Proof.
+  intros cmd q ixa ixs Ha C Hv Hs Hm Hb Hok Hne Hfin Hf R.
+  assert (Hnd : nodup_cf (map v_cf (q_replies q)) = true) by (unfold q, seq_of; vm_compute; reflexivity).
+  pose proof (call_on_serialised_replies cfg (h_commit ixa ixs) (fun acc => ROk acc) q TIMEOUT id xs rest LOOPFUEL w None final
+                Hm C Hv Hs Hb Hnd Hok Hne Hfin Hf) as K.
+  unfold commit_transaction in R. rewrite Ha in R. fold cmd q ixa ixs in R.
+  destruct (consume LOOPFUEL cfg (start_retry q TIMEOUT) w None (h_commit ixa ixs) (fun acc => ROk acc)) as [r w1].
+  cbn [fst] in K. subst r.
+  destruct (run_handler (h_commit ixa ixs) (fun a => ROk a) None (map x_item xs)) as [si|e] eqn:E; [|cbn in R; discriminate].
+  destruct (commit_handler_ok ixa ixs _ _ _ E) as [Esi F].
+  destruct (match s_txs _ with [] => _ | _ => _ end) as [[r2 st2] w2]. destruct r2 as [u|e2]; [|cbn in R; discriminate].
+  destruct si as [v|]; [|cbn in R; discriminate].
+  exists v. split; [symmetry; exact Esi|]. split; [|exact F].
+  cbn [fst] in R. unfold summary_of. exact R.
 Qed.
